@@ -220,6 +220,8 @@ func (p *process) cleanup(cancel context.CancelFunc) {
 	}
 
 	p.inbox.Stop()
+	p.context.engine.stopping.Set(p.pid.ID, p)
+	defer p.context.engine.stopping.Delete(p.pid.ID)
 	p.context.engine.Registry.Remove(p.pid)
 	p.context.message = Stopped{}
 	applyMiddleware(p.context.receiver.Receive, p.Opts.Middleware...)(p.context)
